@@ -19,7 +19,7 @@ L(str) == str
 PathLex == << "$", "@", ".", "..", "[", "]", "(", ")", "?", "*", ",", ":", "'a'", "\"b\"", "'", "\"", "a", "1", "-1", "01", "1e2", "1.5", "1e-1",
               "9007199254740993", "-", "+", "==", "!=", "<", "<>", "&&", "||", "!", " in ", " contains ", "=~", "/a/", "/(/", "/a", "/a/i", "true", "null",
               "length(", "count(", "match(", "value(", "nosuch(", "#", "_", "~", "^", " | ", " & ", "undefined", " ", "\\", "'\\u00e9'", "'\\ud800'", "EACUTE", "0", "and", "not ",
-              "1e400", "1.0e16", "1.5e1", "/a{99999999999999999999}/", "'a{99999999999999999999}'", "aaaaaaaaaaaaaaaaaaaaaaaaaaaaaaaaaaaaaaaa", "HUGE", "SQRUN", "DQRUN", "RERUN", "/(?u)a/a", "'(?a)(?u)a'", "-1.0e309", "1.0e-400" >>
+              "1e400", "1.0e16", "1.5e1", "/a{99999999999999999999}/", "'a{99999999999999999999}'", "aaaaaaaaaaaaaaaaaaaaaaaaaaaaaaaaaaaaaaaa", "HUGE", "SQRUN", "DQRUN", "RERUN", "/(?u)a/a", "'(?a)(?u)a'", "-1.0e309", "1.0e-400", "<=", ">=" >>
 PtrLex == << "/", "~", "0", "1", "a", "-", "#", "\\u0041", "\\", "\\ud800", " ", "EACUTE", "%41", "~0", "~1", "~2", "-1", "01", "9007199254740993", "\\x", "SUPER2", "HUGE" >>
 RelLex == << "0", "1", "2", "10", "+", "-", "#", "/", "a", "~", "01", " ", "\\", "+0", "EACUTE", "HUGE" >>
 Lex == CASE Lang = "path" -> PathLex [] Lang = "pointer" -> PtrLex [] Lang = "relptr" -> RelLex [] OTHER -> <<>>
